@@ -3,9 +3,41 @@
 from typing import List
 
 
+def split_items(stringlist: str) -> List[str]:
+    """Split on the commas that are not inside a quoted string."""
+    items = []
+    current = ""
+    inquote = False
+    escaped = False
+    for char in stringlist:
+        if escaped:
+            escaped = False
+        elif char == "\\":
+            escaped = True
+        elif char == '"':
+            inquote = not inquote
+        elif char == "," and not inquote:
+            items.append(current)
+            current = ""
+            continue
+        current += char
+    items.append(current)
+    return items
+
+
 def to_list(stringlist: str, unquote: bool = True) -> List[str]:
     """Convert a string representing a list to real list."""
     stringlist = stringlist[1:-1]
     return [
-        string.strip('"') if unquote else string for string in stringlist.split(",")
+        string.strip('"') if unquote else string
+        for string in split_items(stringlist)
     ]
+
+
+def to_stringlist(items: List[str]) -> str:
+    """Convert a real list to a string representing a list."""
+    return "[{}]".format(
+        ",".join(
+            item if item.startswith('"') else '"{}"'.format(item) for item in items
+        )
+    )
